@@ -30,6 +30,11 @@ PARALLEL = True
 CASE_TIMEOUT = 600
 EXHAUSTIVE = {"quick": True, "thorough": True}
 BLOCK = 350           # request sequences per case
+# DISABLED stream (reported to the lead as an observation, not part of the check): when True the driver writes into
+# every array a callable returns.  On /repo HEAD the callables hand out VIEWS of _cached_gradient and of the
+# NormalizedConstraints arrays, so a later request for the same point returns the caller's garbage (third jac(x)
+# after `g *= 0` is [0, 0]).  SciPy copies what it receives, so no run is affected; no entry in known_findings.json.
+MUTATE_RETURNED = False
 
 INF = float("inf")
 
@@ -138,10 +143,13 @@ class Env:
         self.evaluator = evaluator
         m = prob.get("mask")
         self.free = np.ones(n_full, dtype=bool) if m is None else np.array(m, dtype=bool)
-        self.x0 = np.array(prob["x0"], dtype=float)
+        # the vector handed to EnsembleOptimizer.start(): the configured initial values unless the case
+        # names an explicit start vector (fixed variables then take THEIR values from it)
+        self.x0 = np.array(prob["start"] if prob.get("start") is not None else prob["x0"], dtype=float)
 
-    def complete(self, xfree):
-        full = self.x0.copy()
+    def complete(self, xfree, start=None):
+        import numpy as np
+        full = (self.x0 if start is None else np.array(start, dtype=float)).copy()
         full[self.free] = xfree
         return full
 
@@ -149,12 +157,12 @@ class Env:
         from ropt.ensemble_evaluator import EnsembleEvaluator
         return EnsembleEvaluator(self.cfg, None, self.evaluator, self.pm)
 
-    def oracle(self, xfree):
+    def oracle(self, xfree, start=None):
         """ensemble values at a point from a fresh, cache-free EnsembleEvaluator: (F, G) as the optimizer
         callback would hand them over (free variables only)"""
         import numpy as np
         n = len(self.log)
-        fr, gr = self.new_evaluator().calculate(self.complete(np.asarray(xfree, dtype=float)),
+        fr, gr = self.new_evaluator().calculate(self.complete(np.asarray(xfree, dtype=float), start),
                                                 compute_functions=True, compute_gradients=True)
         del self.log[n:]
         cons = [] if fr.functions.constraints is None else [float(v) for v in fr.functions.constraints]
@@ -163,11 +171,9 @@ class Env:
         return ([float(fr.functions.weighted_objective), cons],
                 [[float(v) for v in gr.gradients.weighted_objective[self.free]], jac])
 
-    def start(self, driver):
-        """construct the real EnsembleOptimizer (-> SciPyOptimizer) and start it with `driver` in place of
-        scipy.optimize.minimize / differential_evolution; returns whatever the driver returned"""
+    def make_optimizer(self):
+        """the real EnsembleOptimizer (-> SciPyOptimizer) on a fresh EnsembleEvaluator, with a logging callback"""
         import numpy as np
-        import ropt.plugins.optimizer.scipy as sp
         from ropt.optimization import EnsembleOptimizer
 
         env = self
@@ -178,6 +184,13 @@ class Env:
                                 bool(return_gradients)))
                 return super()._optimizer_callback(variables, return_functions=return_functions,
                                                    return_gradients=return_gradients)
+
+        return Recording(self.cfg, self.new_evaluator(), self.pm)
+
+    def start(self, driver, opt=None, start=None):
+        """start the real optimizer (a fresh one unless `opt` is given: several start() calls on ONE object) with
+        `driver` in place of scipy.optimize.minimize / differential_evolution; returns whatever the driver returned"""
+        import ropt.plugins.optimizer.scipy as sp
 
         out = {}
 
@@ -190,8 +203,10 @@ class Env:
         old = sp.minimize, sp.differential_evolution
         sp.minimize, sp.differential_evolution = fake_minimize, fake_de
         try:
-            opt = Recording(self.cfg, self.new_evaluator(), self.pm)
-            out["exit"] = opt.start(self.x0.copy()).name
+            if opt is None:
+                opt = self.make_optimizer()
+            import numpy as np
+            out["exit"] = opt.start(self.x0.copy() if start is None else np.array(start, dtype=float)).name
         finally:
             sp.minimize, sp.differential_evolution = old
         return out
@@ -221,7 +236,7 @@ GRAD_FREE_PLAIN = ["nelder-mead", "powell"]
 GRAD_PLAIN = ["l-bfgs-b", "bfgs", "cg", "newton-cg", "tnc"]
 
 
-def _problem(method, nl, lin, n_full=2, mask=None, parallel=False):
+def _problem(method, nl, lin, n_full=2, mask=None, parallel=False, spelling=None):
     lower = [-INF] * n_full
     upper = [INF] * n_full
     if method == "differential_evolution":
@@ -229,6 +244,11 @@ def _problem(method, nl, lin, n_full=2, mask=None, parallel=False):
     nfree = n_full if mask is None else sum(mask)
     prob = {"method": method, "mask": mask, "x0": [0.0, 0.5, -0.25, 1.0][:n_full], "lower": lower, "upper": upper,
             "nl": None, "lin": None, "options": None, "max_iter": None, "parallel": parallel, "tol": None}
+    if spelling is not None:
+        prob["spelling"] = spelling
+    if mask is not None:
+        # explicit start vector: the fixed variables take their values from it, not from the configured initial values
+        prob["start"] = [v if m else v + 1.0 for v, m in zip(prob["x0"], mask)]
     if nl:
         prob["nl"] = [[1.0, INF], [-INF, 2.0]] if method != "slsqp" else [[1.0, INF], [-1.0, 2.0]]
     if lin:
@@ -270,45 +290,85 @@ def _n_rows(prob):
     return n
 
 
+FAMILIES = ((False, False), (True, False), (False, True), (True, True))
+MASK3 = [True, False, True]
+
+
 def _configs(tier):
-    """(problem, kinds of requests, points for the long sequences, points for the short ones)"""
+    """(problem, kinds of requests, points, short): `short` configurations get the sequences up to length 2 only"""
     S = [["s", i] for i in range(3)]
+    B = [["s", 0], ["s", 1], ["b", [0]], ["b", [0, 1]], ["b", [1, 0]], ["b", [0, 1, 2]], ["b", []]]
     out = []
-    for nl, lin in ((False, False), (True, False), (False, True), (True, True)):
-        p = _problem("slsqp", nl, lin)
-        kinds = [["obj"], ["grad"]]
-        if nl or lin:
+
+    def dict_kinds(p, grad):
+        kinds = [["obj"]] + ([["grad"]] if grad else [])
+        if p["nl"] is not None or p["lin"] is not None:
             ks = sorted({0, _n_rows(p) - 1})
-            kinds += [["con", k] for k in ks] + [["jac", k] for k in ks]
-        out.append((p, kinds, S))
-        p = _problem("cobyla", nl, lin)
-        kinds = [["obj"]]
-        if nl or lin:
-            ks = sorted({0, _n_rows(p) - 1})
-            kinds += [["con", k] for k in ks]
-        out.append((p, kinds, S))
-    # masked variant: three variables, the middle one fixed
-    p = _problem("slsqp", True, True, n_full=3, mask=[True, False, True])
-    ks = sorted({0, _n_rows(p) - 1})
-    out.append((p, [["obj"], ["grad"]] + [["con", k] for k in ks] + [["jac", k] for k in ks], S))
-    for m in GRAD_PLAIN:
-        out.append((_problem(m, False, False), [["obj"], ["grad"]], S))
-    for m in GRAD_FREE_PLAIN:
-        out.append((_problem(m, False, False), [["obj"]], S))
-    for nl, lin in ((False, False), (True, False), (True, True)):
-        p = _problem("differential_evolution", nl, lin)
+            kinds += [["con", k] for k in ks] + ([["jac", k] for k in ks] if grad else [])
+        return kinds
+
+    # method spellings as a user may configure them (the plug-in normalises: prefix removed, lower-cased, default)
+    sl = {(False, False): "scipy/default", (True, False): "SLSQP", (False, True): None, (True, True): "scipy/SLSQP"}
+    co = {(False, False): "COBYLA", (True, False): None, (False, True): "scipy/Cobyla", (True, True): "scipy/cobyla"}
+    for fam in FAMILIES:
+        p = _problem("slsqp", *fam, spelling=sl[fam])
+        out.append((p, dict_kinds(p, True), S, False))
+        p = _problem("cobyla", *fam, spelling=co[fam])
+        out.append((p, dict_kinds(p, False), S, False))
+    # masked variants: three variables, the middle one fixed (and started from an explicit vector)
+    p = _problem("slsqp", True, True, n_full=3, mask=MASK3)
+    out.append((p, dict_kinds(p, True), S, False))
+    p = _problem("slsqp", False, True, n_full=3, mask=MASK3)        # linear only, one row dropped by the mask
+    out.append((p, dict_kinds(p, True), S, True))
+    p = _problem("cobyla", True, True, n_full=3, mask=MASK3)
+    out.append((p, dict_kinds(p, False), S, True))
+    for m, sp in zip(GRAD_PLAIN, (None, "BFGS", "scipy/cg", "Newton-CG", "scipy/TNC")):
+        out.append((_problem(m, False, False, spelling=sp), [["obj"], ["grad"]], S, False))
+    for m, sp in zip(GRAD_FREE_PLAIN, ("scipy/Nelder-Mead", "Powell")):
+        out.append((_problem(m, False, False, spelling=sp), [["obj"]], S, False))
+    for fam in FAMILIES:
+        nl, lin = fam
         kinds = [["obj"]] + ([["conall"], ["jacall"]] if nl else [])
-        out.append((p, kinds, S))
-        p = _problem("differential_evolution", nl, lin, parallel=True)
-        B = [["s", 0], ["s", 1], ["b", [0]], ["b", [0, 1]], ["b", [1, 0]], ["b", [0, 1, 2]], ["b", []]]
-        out.append((p, kinds, B))
+        p = _problem("differential_evolution", nl, lin, spelling="scipy/differential_evolution" if lin else None)
+        out.append((p, kinds, S, False))
+        if fam == (False, True):
+            continue            # vectorised + linear only: same callables as the unconstrained problem
+        p = _problem("differential_evolution", nl, lin, parallel=True,
+                     spelling="Differential_Evolution" if nl and not lin else None)
+        out.append((p, kinds, B, False))
+    p = _problem("differential_evolution", True, False, n_full=3, mask=MASK3, parallel=True)
+    out.append((p, [["obj"], ["conall"], ["jacall"]], B, True))
     return out
+
+
+def _all_rows(prob, kinds):
+    """every normalised row (not only the first and the last one), asked first or after a request of another kind"""
+    n = _n_rows(prob)
+    has_jac = any(k[0] == "jac" for k in kinds)
+    firsts = [None, ["obj", ["s", 0]], ["con", 0, ["s", 0]]]
+    if has_jac:
+        firsts += [["grad", ["s", 0]], ["jac", 0, ["s", 0]]]
+    out = []
+    for first in firsts:
+        for k in range(n):
+            for kind in (("con", "jac") if has_jac else ("con",)):
+                for pt in (0, 1):
+                    out.append(([first] if first else []) + [[kind, k, ["s", pt]]])
+    return out
+
+
+def _shift(op, n):
+    pt = op[-1]
+    return op[:-1] + [["s", pt[1] + n] if pt[0] == "s" else ["b", [i + n for i in pt[1]]]]
+
+
+CHAIN = 100           # sequences run back to back on one plug-in object (one start() each)
 
 
 def gen_cases(tier, rng):
     funcs_by_n = {n: _funcs(rng, n) for n in (2, 3)}
     pool_by_n = {n: _pool(rng, n) for n in (2, 3)}
-    for prob, kinds, pts in _configs(tier):
+    for prob, kinds, pts, short in _configs(tier):
         n_full = len(prob["x0"])
         pool = pool_by_n[prob["_nfree"]]
         funcs = funcs_by_n[n_full]
@@ -325,16 +385,41 @@ def gen_cases(tier, rng):
             red_pts = pts[:2] if nk * npt > 9 else pts
         if len(pts) > 3:      # vectorised DE: shapes matter more than indices
             red_pts = [pts[0], pts[2], pts[3], pts[6]] if nk > 1 else pts
+        if short:
+            full_len, red_len = (2, 2) if tier == "quick" else (3, 3)
         seqs = list(_seqs(_letters(kinds, pts), full_len))
         seen = {cq_key(s) for s in seqs}
         for s in _seqs(_letters(kinds, red_pts), red_len):
             if len(s) > full_len and cq_key(s) not in seen:
                 seqs.append(s)
+        if any(k[0] == "con" for k in kinds):
+            for s in _all_rows(prob, kinds):
+                if cq_key(s) not in seen:
+                    seen.add(cq_key(s))
+                    seqs.append(s)
+        short_seqs = [s for s in seqs if len(s) <= 2]
+        pub = {k2: v for k2, v in prob.items() if not k2.startswith("_")}
         for spec in (False, True):
             for split in (False, True):
                 for k in range(0, len(seqs), BLOCK):
-                    yield {"prob": {k2: v for k2, v in prob.items() if not k2.startswith("_")}, "funcs": funcs,
-                           "pool": pool, "spec": spec, "split": split, "seqs": seqs[k:k + BLOCK]}
+                    yield {"prob": pub, "funcs": funcs, "pool": pool, "spec": spec, "split": split, "chain": False,
+                           "seqs": seqs[k:k + BLOCK]}
+                # the same plug-in object (and EnsembleEvaluator) started again and again
+                n_chain = CHAIN if tier == "quick" else 3 * CHAIN
+                chain = [rng.choice(short_seqs) for _ in range(n_chain // 2)] + \
+                        [rng.choice(seqs) for _ in range(n_chain - n_chain // 2)]
+                case = {"prob": pub, "funcs": funcs, "pool": pool, "spec": spec, "split": split, "chain": True,
+                        "seqs": chain}
+                if prob["mask"] is not None:
+                    # every other run starts from a second explicit vector (other values of the fixed variables):
+                    # the same free coordinates are then a DIFFERENT point -- pool entries n.. are the pool
+                    # points completed with the second start vector
+                    n = len(pool)
+                    case["pool"] = pool + pool
+                    case["pool_start"] = [0] * n + [1] * n
+                    case["starts"] = [prob["start"], [v if m else v - 0.5 for v, m in zip(prob["start"], prob["mask"])]]
+                    case["seqs"] = [s if j % 2 == 0 else [_shift(o, n) for o in s] for j, s in enumerate(chain)]
+                yield case
 
 
 def cq_key(s):
@@ -344,14 +429,15 @@ def cq_key(s):
 # --------------------------------------------------------------------------------------------------
 # running the real code
 # --------------------------------------------------------------------------------------------------
-def _pt_of(env, pool_full, arr, parallel):
-    """pool index structure of an array handed to the optimizer callback (already transposed for parallel)"""
+def _pt_of(env, pool_full, arr, parallel, cands=None):
+    """pool index structure of an array handed to the optimizer callback (already transposed for parallel);
+    `cands`: the pool indices that belong to the current run (its start vector)"""
     import numpy as np
     arr = np.asarray(arr, dtype=float)
 
     def idx(v):
         for i, p in enumerate(pool_full):
-            if v.shape == p.shape and np.allclose(v, p, rtol=0, atol=1e-12):
+            if (cands is None or i in cands) and v.shape == p.shape and np.allclose(v, p, rtol=0, atol=1e-12):
                 return i
         return 99
     if arr.ndim == 1:
@@ -414,22 +500,43 @@ def run_impl(case):
     prob = case["prob"]
     env = Env(prob, case["funcs"], case["spec"], case["split"])
     pool = [np.array(p, dtype=float) for p in case["pool"]]
-    pool_full = [env.complete(p) for p in pool]
-    table = [env.oracle(p) for p in pool]
+    starts = case.get("starts") or [None]
+    pool_start = case.get("pool_start") or [0] * len(pool)
+    pool_full = [env.complete(p, starts[k]) for p, k in zip(pool, pool_start)]
+    table = [env.oracle(p, starts[k]) for p, k in zip(pool, pool_start)]
     parallel = bool(prob.get("parallel")) and prob["method"] == "differential_evolution"
     nfree = int(env.free.sum())
     runs = []
     structure = {}
+    # like SciPy's algorithms the driver keeps ONE array per shape and overwrites it in place with the next
+    # point: a cache that keeps a reference to the caller's array instead of a copy sees "the same point"
+    bufs = {}
 
     def arr_of(pt):
         if pt[0] == "s":
-            return pool[pt[1]].copy()
-        if not pt[1]:
-            return np.zeros((nfree, 0))
-        return np.stack([pool[i] for i in pt[1]]).T.copy()     # (N, S) as scipy's vectorised DE passes it
+            val = pool[pt[1]]
+        elif not pt[1]:
+            val = np.zeros((nfree, 0))
+        else:
+            val = np.stack([pool[i] for i in pt[1]]).T     # (N, S) as scipy's vectorised DE passes it
+        buf = bufs.setdefault(val.shape, np.empty(val.shape))
+        buf[...] = val
+        return buf
 
+    def start_of(seq):
+        for op in seq:
+            pt = op[-1]
+            ids = [pt[1]] if pt[0] == "s" else pt[1]
+            if ids:
+                return pool_start[ids[0]]
+        return 0
+
+    opt = env.make_optimizer() if case.get("chain") else None
     for seq in case["seqs"]:
-        def driver(which, kw, seq=seq):
+        k_start = start_of(seq)
+        cands = [i for i, k in enumerate(pool_start) if k == k_start]      # the pool points of this run
+
+        def driver(which, kw, seq=seq, cands=cands):
             cons = kw.get("constraints") or []
             nlc = [c for c in cons if hasattr(c, "fun") and not isinstance(c, dict)]
             structure.setdefault("which", which)
@@ -442,25 +549,28 @@ def run_impl(case):
                 n0 = len(env.log)
                 try:
                     if kind == "obj":
-                        r = _ret((kw["fun"] if which == "minimize" else kw["func"])(x))
+                        raw = (kw["fun"] if which == "minimize" else kw["func"])(x)
                     elif kind == "grad":
-                        r = _ret(kw["jac"](x))
+                        raw = kw["jac"](x)
                     elif kind == "con":
-                        r = _ret(cons[op[1]]["fun"](x))
+                        raw = cons[op[1]]["fun"](x)
                     elif kind == "jac":
-                        r = _ret(cons[op[1]]["jac"](x))
+                        raw = cons[op[1]]["jac"](x)
                     elif kind == "conall":
-                        r = _ret(nlc[0].fun(x))
+                        raw = nlc[0].fun(x)
                     elif kind == "jacall":
-                        r = _ret(nlc[0].jac(x))
+                        raw = nlc[0].jac(x)
                     else:
                         raise ValueError(kind)
+                    r = _ret(raw)
+                    if MUTATE_RETURNED and isinstance(raw, np.ndarray) and raw.flags.writeable and raw.ndim:
+                        raw[...] = raw + 1000.0      # the caller writes into what it received
                 except (AssertionError, IndexError, KeyError, TypeError, ValueError) as e:
                     r = ["err", type(e).__name__]
                 invs = []
                 for entry in env.log[n0:]:
                     if entry[0] == "cb":
-                        invs.append([_pt_of(env, pool, entry[1], parallel), entry[2], entry[3], []])
+                        invs.append([_pt_of(env, pool, entry[1], parallel, cands), entry[2], entry[3], []])
                     elif invs:
                         invs[-1][3].append(_ev_kind(env, pool_full, entry[1], entry[2], invs[-1][0]))
                     else:
@@ -468,7 +578,7 @@ def run_impl(case):
                 out.append({"ret": r, "inv": invs})
             return out
         env.log.clear()
-        res = env.start(driver)
+        res = env.start(driver, opt, starts[k_start])
         runs.append(res.get("result"))
     return {"table": table, "runs": runs, "structure": structure}
 
@@ -499,7 +609,8 @@ def problem_term(prob):
     mi = "None" if prob.get("max_iter") is None else f"(Some {cq.z(prob['max_iter'])})"
     types = "None" if prob.get("types") is None else "(Some " + cq.bs([t == 2 for t in prob["types"]]) + ")"
     tol = "None" if prob.get("tol") is None else f"(Some {cq.q(prob['tol'])})"
-    return (f"(Build_problem {cq.s(prob['method'])} {mask} {cq.qs(prob['x0'])} {cq.ers(prob['lower'])} "
+    x0 = prob["start"] if prob.get("start") is not None else prob["x0"]      # what start() is called with
+    return (f"(Build_problem {cq.s(prob['method'])} {mask} {cq.qs(x0)} {cq.ers(prob['lower'])} "
             f"{cq.ers(prob['upper'])} {nl} {lin} {opts} {mi} {cq.b(bool(prob.get('output_dir')))} {types} "
             f"{cq.b(bool(prob.get('parallel')))} {tol})")
 
@@ -579,22 +690,29 @@ def coq_case(case, obs):
     G = cq.lst(f"({cq.qs(g[0])}, {cq.qmat(g[1])})" for _, g in table)
     X = cq.lst(cq.qs(p) for p in case["pool"])
     vals, index = [], {}
+    items, item_index = [], {}
     seqs = []
     big = 1.0
     for f, g in table:
         big = max([big, abs(f[0])] + [abs(t) for t in f[1]] + [abs(t) for t in g[0]] + [abs(t) for row in g[1] for t in row])
     for seq, run in zip(case["seqs"], obs["runs"]):
-        items = []
+        ids = []
+        if len(run) != len(seq):
+            raise ValueError("the driver did not issue every request of the sequence")
         for op, res in zip(seq, run):
             r = res["ret"] if _finite(res["ret"]) else ["err", "nonfinite"]
             key = repr(r)
             if key not in index:
                 index[key] = len(vals)
                 vals.append(_ret_term(r))
-            items.append(f"({_op_term(op)}, {index[key]}, {_calls_terms(res['inv'])})")
-        seqs.append(cq.lst(items))
+            term = f"({_op_term(op)}, {index[key]}, {_calls_terms(res['inv'])})"
+            if term not in item_index:
+                item_index[term] = len(items)
+                items.append(term)
+            ids.append(str(item_index[term]))
+        seqs.append(cq.lst(ids))
     return (f"(Build_case {problem_term(case['prob'])} {cq.b(case['spec'])} {cq.b(case['split'])} {F} {G} {X} "
-            f"{cq.q(big)} {cq.lst(vals)} {cq.lst(seqs)})")
+            f"{cq.q(big)} {cq.lst(vals)} {cq.lst(items)} {cq.b(bool(case.get('chain')))} {cq.lst(seqs)})")
 
 
 # --------------------------------------------------------------------------------------------------
@@ -711,6 +829,11 @@ def features(case, obs):
     n = sum(len(s) for s in case["seqs"])
     return {"method": p["method"] + ("/vectorized" if p.get("parallel") else ""), "constraints": cons,
             "speculative": case["spec"], "split": case["split"], "masked": p["mask"] is not None,
+            "one_object_started_repeatedly": bool(case.get("chain")),
+            "method_spelling": "as-is" if p.get("spelling") in (None, p["method"]) else "prefixed/upper-case/default",
+            "explicit_start_vector": p.get("start") is not None,
+            "all_rows_stream": any(len(s) <= 2 and s[-1][0] in ("con", "jac") and s[-1][1] not in (0, _n_rows(p) - 1)
+                                   for s in case["seqs"]),
             "sequences_in_block": 50 * ((len(case["seqs"]) + 49) // 50), "max_len": max(len(s) for s in case["seqs"]),
             "requests_in_block>=": 100 * (n // 100)}
 
@@ -721,6 +844,17 @@ def known_signature(case, obs, violation):
 
 def shrink(case):
     seqs = case["seqs"]
+    if case.get("chain") and len(seqs) > 1:
+        # the sequences share one plug-in object: first try a single sequence on a fresh object, then drop
+        # halves / single sequences of the chain
+        for s in seqs:
+            yield {**case, "chain": False, "seqs": [s]}
+        h = len(seqs) // 2
+        yield {**case, "seqs": seqs[h:]}
+        yield {**case, "seqs": seqs[:h]}
+        for k in range(len(seqs)):
+            yield {**case, "seqs": seqs[:k] + seqs[k + 1:]}
+        return
     if len(seqs) > 1:
         # first isolate one failing sequence
         for s in seqs:
@@ -745,19 +879,26 @@ def translate(repo):
     return C08.translate(repo)
 
 
-RULE = ("exhaustive: for every configuration {slsqp, cobyla} x {no, non-linear, linear, both constraint families} "
-        "(+ a masked slsqp problem), {l-bfgs-b, bfgs, cg, newton-cg, tnc}, {nelder-mead, powell}, differential_evolution "
-        "serial and vectorised x {no, non-linear, both} -- each x speculative x split_evaluations -- every sequence of "
-        "requests {objective, gradient, constraint value k, constraint Jacobian k | NonlinearConstraint fun/jac} x pool "
-        "points up to length 2 (3 for small alphabets) over 3 pool points and up to length 3 over 2 points (quick; one "
-        "more each in thorough); for vectorised DE the points are single vectors and batches of sizes 0,1,2,3. One "
-        "case = one configuration + a block of <= 350 sequences sharing the oracle table. Non-trivial = the block "
-        "contains a sequence with >= 2 requests at >= 2 different points; distinct = distinct (configuration, block).")
+RULE = ("exhaustive: for every configuration {slsqp, cobyla} x {no, non-linear, linear, both constraint families}, masked "
+        "variants started from an explicit vector (slsqp both / slsqp linear-only with a row dropped by the mask / cobyla both / "
+        "vectorised differential_evolution non-linear), {l-bfgs-b, bfgs, cg, newton-cg, tnc}, {nelder-mead, powell}, "
+        "differential_evolution serial x {no, non-linear, linear, both} and vectorised x {no, non-linear, both}; methods are "
+        "spelled as a user may configure them (prefix, upper case, scipy/default) -- each x speculative x split_evaluations -- "
+        "every sequence of requests {objective, gradient, constraint value k, constraint Jacobian k | NonlinearConstraint "
+        "fun/jac} x pool points up to length 2 (3 for small alphabets) over 3 pool points and up to length 3 over 2 points "
+        "(quick; one more each in thorough), k = first and last normalised row; plus every normalised row k asked first or "
+        "after an objective / gradient / row-0 request; for vectorised DE the points are single vectors and batches of sizes "
+        "0,1,2,3. The driver overwrites ONE array per shape in place, as SciPy does. One case = one configuration + a block of "
+        "<= 350 sequences on fresh objects sharing the oracle table, or a chain of 100 (300) random sequences run back to back "
+        "on ONE plug-in object and ONE EnsembleEvaluator (start() once per sequence; masked chains alternate between two start "
+        "vectors). Non-trivial = the block contains a sequence with >= 2 requests at >= 2 different points; distinct = "
+        "distinct (configuration, block).")
 ASSUMPTIONS = [
     "the ensemble values at a point are an oracle F(x), G(x) (C01/C02's business); with the injected deterministic sampler and the deterministic evaluator they are a function of the point, computed for the table by fresh cache-free EnsembleEvaluator instances",
-    "pool points are pairwise farther apart than 1e-3(1+|x|), so np.allclose and the evaluator's atol=1e-15 test coincide with equality of pool index",
+    "pool points are pairwise farther apart than 1e-3(1+|x|), so np.allclose and the evaluator's atol=1e-15 test coincide with equality of pool index (the same free coordinates under another start vector of a masked problem are another point)",
     "requests arrive sequentially (no concurrent calls into the plug-in)",
     "batches are only issued to gradient-free (population) methods; gradient requests for a batch are outside the modelled domain (the code asserts ndim == 1)",
+    "the caller may overwrite the arrays it passes in after a call returns, but does not write into the arrays it receives (the callables hand out views of the plug-in's caches; SciPy copies them)",
 ]
 TRUSTED = [
     "the scripted driver standing in for scipy.optimize.minimize / differential_evolution (calls the real callables, records returns)",
@@ -766,12 +907,13 @@ TRUSTED = [
 ]
 
 MANIFEST = {
-    "level_text": ("Machine-checked Coq proof, by induction over arbitrary request sequences from the initial state, that the "
+    "level_text": ("Machine-checked Coq proof, by induction over arbitrary request sequences from the initial state -- and from the "
+                   "state after start() is called again on an object in ANY state, and over chains of runs on one object -- that the "
                    "executable model of the SciPy plug-in's point cache (Model/ScipyCache.v: _check_cached_variables, "
                    "_get_function_or_gradient, _compute_functions_and_gradients, the lazily filled NormalizedConstraints cache of the "
-                   "constraint callables, batches for population methods, and EnsembleEvaluator's function cache) returns for every "
-                   "request the oracle's ensemble value at the requested point whichever callable is invoked first, requests each of "
-                   "{functions, gradients} at most once while the point does not change, never requests gradients for a method of the "
+                   "constraint callables, batches for population methods, start(), and EnsembleEvaluator's function cache) returns for "
+                   "every request the oracle's ensemble value at the requested point whichever callable is invoked first, requests each "
+                   "of {functions, gradients} at most once while the point does not change, never requests gradients for a method of the "
                    "generated no-gradient table, never computes both in one evaluation under split_evaluations, and returns the same "
                    "values with and without speculative; the model is tied to the code on every run by an in-Coq correspondence over "
                    "all request sequences up to the stated length on the real plug-in + EnsembleOptimizer + EnsembleEvaluator."),
@@ -780,7 +922,9 @@ MANIFEST = {
                    "are separate properties). 'Never evaluated again' is stated at the level of optimizer-callback requests (a gradient-"
                    "only request at a point whose functions were not cached makes the evaluator recompute function values internally; "
                    "the evaluator-level cache reuse is proved separately as C07_evaluator_cache_reuse). NaN->inf for DE and failed "
-                   "realizations are not exercised (C03). All theorems print 'Closed under the global context'."),
+                   "realizations are not exercised (C03). The callables return views of the plug-in's caches: a caller that writes into "
+                   "a returned array corrupts later answers for the same point; SciPy does not, and the check does not either. "
+                   "All theorems print 'Closed under the global context'."),
     "technique": "Coq proof (state-machine invariant by induction over request sequences) + exhaustive bounded in-Coq differential correspondence with the real plug-in",
     "design_ref": "DESIGN.md section 4, C07",
 }
